@@ -185,4 +185,82 @@ Section Instance.
     split; [apply take_le_bytes|]. split; [apply le_val_le_bytes_4; unfold MAGIC; lia|].
     apply parse_desc_header. rewrite <- Hd. apply desc_of_wf. exact Hn.
   Qed.
+
+  (* ---- update_contract, in the form that is true: autoFlush set (lz4io.c always sets it), a
+     content size that fits its field ---- *)
+  Definition update_contract_af bdec skipcrc (LZ4F_update : lz4f_prefs -> list Z -> list (list Z) -> list Z -> list Z) : Prop :=
+    forall p D maxb d prev c dict acc,
+      fp_autoFlush p <> 0 -> 4 <= fp_blockSizeID p <= 7 -> 0 <= fp_contentSize p < U64_MAX1 ->
+      f_indep D = negb (linked p) -> f_bcrc D = negb (fp_blockChecksum p =? 0) ->
+      f_bsid D = fp_blockSizeID p -> bsid_size (f_bsid D) = Some maxb ->
+      (if linked p then lastn 65536 (d ++ concat prev) = lastn 65536 (dict ++ acc) else d = dict) ->
+      extends bdec skipcrc D maxb dict acc (LZ4F_update p d prev c) c.
+
+  Lemma lastn_app_cong n (a b x : list byte) : lastn n a = lastn n b -> lastn n (a ++ x) = lastn n (b ++ x).
+  Proof.
+    intro H. rewrite <- (LZ4V.Proofs.FrameDSound.lastn_app_lastn n a x), <- (LZ4V.Proofs.FrameDSound.lastn_app_lastn n b x), H. reflexivity.
+  Qed.
+
+  Theorem c4_update_contract_af : forall skipcrc, update_contract_af strict_valid skipcrc c4_update.
+  Proof.
+    intros skipcrc p D maxb d prev c dict acc Haf Hb Hc Hi Hbc Hbs Hmaxb Hwin.
+    destruct (c4_ctx_spec p d prev Hb Hc) as (maxb' & bl & Hmaxb' & HI & HJ & Hm).
+    rewrite Hbs in Hmaxb. rewrite Hmaxb in Hmaxb'. inversion Hmaxb'; subst maxb'. clear Hmaxb'.
+    destruct (cvf_ok p Hb Hc) as (Hn & _).
+    pose proof (bsid_size_range _ _ Hmaxb) as Hmax.
+    set (ck := c4_ctx p d prev) in *.
+    destruct (FCI.update_out blk Hblk (dk_of d) (cvf p) maxb (concat prev) ck bl c FC_LZ4B_COMPRESSED Hn Hmax HI) as (o & c' & Hu).
+    fold (compressUpdate blk ck c) in Hu.
+    destruct (update_inv blk strict_valid Hblk strict_valid_ext (dk_of d) (cvf p) maxb (concat prev) ck bl c FC_LZ4B_COMPRESSED o c' Hn Hmax HI ltac:(intros _; reflexivity) Hu)
+      as (bl' & Ho & HI').
+    destruct (FCI.update_afJ blk ck c o c' Hm HJ Hu) as [HJ' _].
+    unfold c4_update. fold ck. rewrite Hu. cbn [fst outb]. subst o.
+    (* nothing stays in tmpIn: the new blocks hold exactly the input *)
+    assert (Hpk : FC.c_prefs ck = cvf p) by (destruct HI as [[Hs ? ? ? ? ? ?] ? ? ? ? ?]; exact Hs).
+    assert (Hpk' : FC.c_prefs c' = cvf p) by (destruct HI' as [[Hs ? ? ? ? ? ?] ? ? ? ? ?]; exact Hs).
+    assert (Ht : c_tmp ck = []) by (apply HJ; rewrite Hpk; exact Haf).
+    assert (Ht' : c_tmp c' = []) by (apply HJ'; rewrite Hpk'; exact Haf).
+    assert (HX : concat prev = contents bl) by (destruct HI as [_ HX _ _ _ _]; rewrite Ht, app_nil_r in HX; exact HX).
+    assert (HX' : c = contents bl').
+    { destruct HI' as [_ HX' _ _ _ _]. rewrite Ht', app_nil_r, contents_app, HX in HX'. apply app_inv_head in HX'. exact HX'. }
+    assert (Hch : chain strict_valid (p_blockMode (cvf p) =? 1) (dict_of (dk_of d)) maxb [] (bl ++ bl'))
+      by (destruct HI' as [[? ? ? ? ? Hch ?] ? ? ? ? ?]; exact Hch).
+    apply chain_app in Hch. destruct Hch as [_ Hch]. cbn [app] in Hch. rewrite dict_of_dk in Hch.
+    assert (Ei : (p_blockMode (cvf p) =? 1) = f_indep D) by (rewrite Hi; cbn; destruct (linked p); reflexivity).
+    assert (Ec : (p_bcrc (cvf p) =? 1) = f_bcrc D) by (rewrite Hbc; cbn; destruct (fp_blockChecksum p =? 0); reflexivity).
+    rewrite Ei in Hch. rewrite Ec. rewrite HX' at 1.
+    apply chain_extends; [lia|].
+    apply (chain_rebase strict_valid bl' (f_indep D) d dict maxb (contents bl) acc); [|exact Hch].
+    intro x. unfold hist_spec. rewrite Hi. destruct (linked p); cbn [negb].
+    - rewrite !app_assoc. apply lastn_app_cong. rewrite <- HX. exact Hwin.
+    - exact Hwin.
+  Qed.
+
+  (* ---- end_contract, in the form that is true: a declared content size must be the real one ---- *)
+  Definition end_contract_v (LZ4F_end : lz4f_prefs -> list Z -> list Z) : Prop :=
+    forall p content, valid_prefs p content -> fp_autoFlush p <> 0 ->
+      LZ4F_end p content = frame_tail (CliProofs.desc_of p) content.
+
+  Theorem c4_end_contract_v : end_contract_v c4_end.
+  Proof.
+    intros p content (Hb & Hcs & Hc) Haf.
+    destruct (c4_ctx_spec p [] [content] Hb Hc) as (maxb & bl & Hmaxb & HI & HJ & Hm).
+    destruct (cvf_ok p Hb Hc) as (Hn & _).
+    set (ck := c4_ctx p [] [content]) in *. cbn [concat] in HI. rewrite app_nil_r in HI.
+    assert (Hpk : FC.c_prefs ck = cvf p) by (destruct HI as [[Hs ? ? ? ? ? ?] ? ? ? ? ?]; exact Hs).
+    assert (Ht : c_tmp ck = []) by (apply HJ; rewrite Hpk; exact Haf).
+    unfold c4_end. fold ck. unfold compressEnd, flush. rewrite Ht. cbn [len length Z.of_nat Z.eqb].
+    cbn [FC.c_prefs set_stage c_totalIn]. rewrite Hpk.
+    destruct HI as [_ HX _ Hxxh Htot _].
+    assert (Hsz : (negb (p_contentSize (cvf p) =? 0) && negb (p_contentSize (cvf p) =? c_totalIn ck)) = false).
+    { cbn [cvf p_contentSize]. destruct (Z.eqb_spec (fp_contentSize p) 0) as [E0|E0]; [reflexivity|].
+      cbn [negb andb]. specialize (Htot E0). destruct Hcs as [Hcs|Hcs]; [contradiction|].
+      rewrite Htot. unfold U64_MAX1 in Hc. assert (Hl : len content = lenZ content) by reflexivity.
+      rewrite Z.mod_small by (rewrite Hl, <- Hcs; unfold U64; lia).
+      rewrite Hl, <- Hcs, Z.eqb_refl. reflexivity. }
+    rewrite Hsz. cbn [fst outb app]. unfold frame_tail. rewrite writeLE32_eq. f_equal.
+    cbn [CliProofs.desc_of f_ccrc cvf p_ccrc]. unfold FC_contentChecksumEnabled.
+    destruct (fp_contentChecksum p =? 0) eqn:E; cbn [negb Z.eqb Pos.eqb]; [reflexivity|].
+    rewrite writeLE32_eq. rewrite Hxxh by (cbn; rewrite E; reflexivity). reflexivity.
+  Qed.
 End Instance.
